@@ -11,6 +11,7 @@
      mode: the current, tag-less chunk is lost — except chunk 0, D2).
 
    This closes the gap that props/C14.v states for C14_flush_enc_layer_output (formerly ..._partial). *)
+From MLA Require Import Limit.
 From MLA Require Import Base Stream Blocks Writer WriterProofs Repair RepairSpec RepairPure
   RepairProofs2 RepairProofs5 RepairProofs6 EncLayer EncAuthFs EncWriter EncWriterProofs EncFlushProofs
   FlushProofs Run ComposeRdOnly ComposeRepair ComposeWriterRun.
@@ -36,6 +37,7 @@ Proof.
 Qed.
 
 Section Flush.
+  Context {LIM : Limit}.
   Variable FNMAX CACHE : N.
   Hypothesis HFN : FNMAX < 2 ^ 64.
   Hypothesis HCACHE : 0 < CACHE.
@@ -57,13 +59,15 @@ Section Flush.
   Lemma repair_whole_blocks S I bl s0 fuel :
     RdRefines (rd S) (body bl) I -> wf_blocks bl -> ~ In BEnd bl -> I s0 0 ->
     (N.to_nat (len (body bl)) < fuel)%nat ->
+    (* finalize did not fail with SerializationError (footer within the bincode limit) *)
+    repair S fuel s0 w_init <> Err EDeser ->
     exists out obl,
       repair S fuel s0 w_init = Ok (FEofNextBlock, unfinished_of (files_of bl), out) /\
       good_output out obl /\ Forall2 same (files_of bl) (files_of obl).
   Proof.
-    intros HR Hwf Hne HI Hf.
+    intros HR Hwf Hne HI Hf Hser.
     destruct (repair_exact_rd FNMAX CACHE HFN HCACHE T_START T_CONTENT T_EOA T_EOF Htags H H_len
-                S (body bl) I HR bl [] Hwf (or_intror eq_refl) (prefix_app _ _) s0 HI fuel Hf)
+                S (body bl) I HR bl [] Hwf (or_intror eq_refl) (prefix_app _ _) s0 HI fuel Hf Hser)
       as (out & obl & Hr & Hg & Hs).
     unfold recovered in *. rewrite (cutb_full bl (len (body bl)) Hne) in *
       by (rewrite (len_body T_START T_CONTENT T_EOA T_EOF); lia).
@@ -114,13 +118,14 @@ Section Flush.
        refines them read-only (a file, a throttled file, ...) *)
     Theorem flush_then_repair_plain S I s0 fuel :
       RdRefines (rd S) (w_out s) I -> I s0 0 -> (N.to_nat (len (w_out s)) < fuel)%nat ->
+      repair S fuel s0 w_init <> Err EDeser ->
       recovers_all s ops (repair S fuel s0 w_init).
     Proof.
-      intros HR HI Hf.
+      intros HR HI Hf Hser.
       destruct (clean_run_blocks FNMAX T_START T_CONTENT T_EOA T_EOF H order ops s rs Hrun Hclean Hops Hnext)
         as (bl & Ho & Hwf & Hne & Hfl & Hd).
       rewrite Ho in HR, Hf.
-      destruct (repair_whole_blocks S I bl s0 fuel HR Hwf Hne HI Hf) as (out & obl & Hr & Hg & Hs).
+      destruct (repair_whole_blocks S I bl s0 fuel HR Hwf Hne HI Hf Hser) as (out & obl & Hr & Hg & Hs).
       exists bl, out, obl. repeat (split; [assumption|]).
       exact (names_content bl obl _ _ Hwf Hfl Hd Hs).
     Qed.
@@ -182,31 +187,33 @@ Section Flush.
     (* encryption, DataEvenUnauthenticated: everything appended so far *)
     Theorem flush_then_repair_enc fuel : (N.to_nat (len (w_out s)) < fuel)%nat ->
       exists e0 b, fs_open (Cursor (ew_out es)) 0 = (e0, Ok b) /\
-        recovers_all s ops (repair (FsEnc true (Cursor (ew_out es))) fuel e0 w_init).
+        (repair (FsEnc true (Cursor (ew_out es))) fuel e0 w_init <> Err EDeser ->
+         recovers_all s ops (repair (FsEnc true (Cursor (ew_out es))) fuel e0 w_init)).
     Proof.
       intros Hf.
       destruct (fsenc_rd_refines CHUNK TAG HCHUNK ks tagc true (ew_out es) Hbig) as (I & HR & e0 & b & Ho & HI).
-      exists e0, b. split; [exact Ho|]. rewrite unauth_output_is in HR.
-      exact (flush_then_repair_plain _ I e0 fuel HR HI Hf).
+      exists e0, b. split; [exact Ho|]. rewrite unauth_output_is in HR. intros Hser.
+      exact (flush_then_repair_plain _ I e0 fuel HR HI Hf Hser).
     Qed.
 
     (* encryption, authenticated mode: exactly the content in the first m bytes of the block
        stream, m covering at least every completed chunk *)
     Theorem flush_then_repair_enc_auth fuel : (N.to_nat (len (w_out s)) < fuel)%nat ->
       exists e0 b, fs_open (Cursor (ew_out es)) 0 = (e0, Ok b) /\
+      (repair (FsEnc false (Cursor (ew_out es))) fuel e0 w_init <> Err EDeser ->
       exists m bl status unfinished out obl,
         ew_ctr es * CHUNK <= m /\ m <= len (w_out s) /\ (ew_ctr es = 0 -> m = len (w_out s)) /\
         w_out s = body bl /\ wf_blocks bl /\ w_files s = name_list (files_of bl) /\
         repair (FsEnc false (Cursor (ew_out es))) fuel e0 w_init = Ok (status, unfinished, out) /\
         good_output out obl /\
         (forall f, In f (files_of bl) -> content_of (files_of obl) (f_name f) = present (f_id f) bl m) /\
-        (forall id, data_of_id (files_of bl) id = appended id w_init ops).
+        (forall id, data_of_id (files_of bl) id = appended id w_init ops)).
     Proof.
       intros Hf.
       destruct (clean_run_blocks FNMAX T_START T_CONTENT T_EOA T_EOF H order ops s rs Hrun Hclean Hops Hnext)
         as (bl & Ho & Hwf & Hne & Hfl & Hd).
       destruct (fsenc_rd_refines CHUNK TAG HCHUNK ks tagc false (ew_out es) Hbig) as (I & HR & e0 & b & Hop & HI).
-      exists e0, b. split; [exact Hop|].
+      exists e0, b. split; [exact Hop|]. intros Hser.
       set (m := ew_auth_len CHUNK TAG ks tagc es (w_out s)).
       destruct (ew_auth_len_bounds CHUNK TAG HCHUNK HTAG ks tagc Htagc es (w_out s) es_inv) as (B1 & B2 & B3).
       fold m in B1, B2, B3.
@@ -218,7 +225,7 @@ Section Flush.
       destruct (repair_max_rd FNMAX CACHE HFN HCACHE T_START T_CONTENT T_EOA T_EOF Htags H H_len
                   _ _ I HR bl [] Hwf (or_intror eq_refl)
                   (prefix_trans _ _ _ (prefix_takeN m (body bl)) (prefix_app _ _)) e0 HI fuel
-                  ltac:(rewrite Hlm; lia))
+                  ltac:(rewrite Hlm; lia) Hser)
         as (status & unf & out & obl & Hr & Hg & Hc).
       rewrite Hlm in Hc.
       exists m, bl, status, unf, out, obl. repeat (split; [assumption|]). exact Hd.
